@@ -10,7 +10,8 @@ Open Scope list_scope.
 (* the record used in the witnesses *)
 Definition c17_rec (i : N) : rec := mkRec 1%N i.
 
-(* the generated facts have the shape the proofs need: __exit__ = flush; close, __del__ = close, AvroWriter.flush
+(* the generated facts have the shape the proofs need: __exit__ = flush; close -- when the with-block is left normally AND
+   when it is left by an exception --, __del__ = close, AvroWriter.flush
    does not install the placeholder-schema writer, AvroWriter.close installs it when nothing was written and flushes,
    rotate_existing_file searches a free name, SplitWriter takes only (netloc "" or "-", empty path) for stdout, SplitWriter.write rolls over on `written >= count` by flush; close;
    written = 0; new writer.  Undoing any of the repairs in /repo flips a fact and this no longer computes. *)
@@ -81,26 +82,34 @@ Proof. repeat split. Qed.
 
 (* ---------------------------------------------------------------------------------------------------- *)
 (* 2. opened and closed without records: a valid empty output.  JSON/CSV/line/text, Avro, SQLite: however closed;
-   stream: via with-exit or flush; close (a bare close() is the finding above) *)
-Theorem C17_empty_output_valid : forall batch k c, is_closing c = true -> (k = AStream -> c = WithExit) ->
+   stream: by leaving a with-block -- normally or by an exception -- or flush; close (a bare close() is the finding
+   above) *)
+Theorem C17_empty_output_valid : forall batch k c, is_closing c = true -> (k = AStream -> is_exit c = true) ->
   readable (w_file (fst (run writer_shapes batch k (w_init k) [c]))) = Some [].
 Proof. intros batch k c. exact (empty_output_valid writer_shapes batch k c eq_refl). Qed.
+(* what an __exit__ that skips the flush when an exception is in flight would do (a statement about the generated
+   facts with that change): a with-block left by an exception before the first record leaves a 0-byte file *)
+Theorem C17_refuted_exit_by_exception_if_close_only : forall batch,
+  let sh := with_exit_exc_close_only writer_shapes in
+  w_file (fst (run sh batch AStream (w_init AStream) [WithExitExc])) = FileStream [] /\
+  readable (w_file (fst (run sh batch AStream (w_init AStream) [WithExitExc]))) = None.
+Proof. intros batch. split; reflexivity. Qed.
 Theorem C17_empty_output_valid_stream_flush_close : forall batch,
   w_file (fst (run writer_shapes batch AStream (w_init AStream) [Flush; Close])) = FileStream [FHdr] /\
   readable (FileStream [FHdr]) = Some [].
 Proof. intros batch. split; reflexivity. Qed.
 
 (* ---------------------------------------------------------------------------------------------------- *)
-(* 3. split by count, closed by with-exit (what rdump does): for every inner adapter whose write() cannot fail
+(* 3. split by count, closed by leaving the with-block -- normally (what rdump does) or by an exception --: for every inner adapter whose write() cannot fail
    (stream, JSON/CSV/line/text, SQLite), limit > 0, record sequence rs, and EVERY target that names a file: (netloc, path)
    = urlparse of the path SplitWriter receives; file_target = not (netloc in {"", "-"} and path = "") -- absolute paths,
    relative paths, and a bare file name behind an adapter scheme (which urlparse puts into netloc) alike.
    parts = rs cut every `limit` records, plus an empty trailing part when the last record fills a part (SplitWriter
    opens the next part at once). *)
-Theorem C17_split : forall batch k limit netloc path rs,
-  always_accepts k = true -> 0 < limit -> file_target netloc path = true ->
+Theorem C17_split : forall batch k limit netloc path rs c,
+  always_accepts k = true -> 0 < limit -> file_target netloc path = true -> is_exit c = true ->
   let res := split_run writer_shapes batch k limit (split_is_stdout writer_shapes netloc path) (split_init k)
-                       (map Write rs ++ [WithExit]) in
+                       (map Write rs ++ [c]) in
   let files := map snd (split_files (fst res)) in
   let parts := chunks limit [] rs in
   snd res = rs /\                                                        (* every write accepted *)
@@ -113,9 +122,9 @@ Theorem C17_split : forall batch k limit netloc path rs,
   (last parts [] = [] <-> List.length rs mod limit = 0) /\
   (k = AStream -> read_stream (raw_concat files) = Some rs).             (* raw concatenation is a stream *)
 Proof.
-  intros batch k limit netloc path rs Hk Hl Hft.
-  exact (split_theorem_target writer_shapes batch k limit netloc path rs WithExit eq_refl eq_refl Hk Hl Hft eq_refl
-           (or_introl eq_refl)).
+  intros batch k limit netloc path rs c Hk Hl Hft He.
+  exact (split_theorem_target writer_shapes batch k limit netloc path rs c eq_refl eq_refl Hk Hl Hft (closing_of_exit c He)
+           (or_introl He)).
 Qed.
 (* a bare file name behind an adapter scheme (split+jsonfile://bare.json: netloc "bare.json", empty path) is a file *)
 Example C17_split_bare_name_is_a_file :
